@@ -249,6 +249,8 @@ def gen_scenario(seed, opts):
                 pos = r.below(len(names) + 1)
                 names[pos:pos] = tok.split(" ")
         argv += names
+        if use_o and r.below(15) == 0:
+            argv += ["-o", "decoy%d.out" % i]      # -o given twice: the last one counts, the first names nothing
         if use_o:
             if r.below(2):
                 argv += ["-o", out]
